@@ -332,7 +332,7 @@ func ackThenFile(ctx *core.Ctx, bin string, round int) {
 		run  func(tok string) (acked bool, err error)
 	}
 	// occurrences of the token the file must hold when the preparing command carries it too
-	needs := map[string]int{"jdel-geojson": 2, "jset-geojson": 2, "eval-jset-geojson": 2}
+	needs := map[string]int{"jdel-geojson": 2, "jset-geojson": 2, "eval-jset-geojson": 2, "delchan-roam": 2, "delhook-roam": 2, "pdelchan-static": 2, "delchan-roam-json": 2, "delhook-roam-json": 2}
 	dial := func() (net.Conn, error) { return net.DialTimeout("tcp", s.Addr(), 5*time.Second) }
 	respDo := func(pre [][]string, cmd ...string) func(string) (bool, error) {
 		return func(tok string) (bool, error) {
@@ -523,6 +523,12 @@ func ackThenFile(ctx *core.Ctx, bin string, round int) {
 	shapes = append(shapes, shape{"jdel-geojson", respDo([][]string{{"SET", "p", "jgeo", "OBJECT", feat}}, "JDEL", "p", "jgeo", "properties.@T")})
 	shapes = append(shapes, shape{"jset-geojson", respDo([][]string{{"SET", "p", "jgeo2", "OBJECT", feat}}, "JSET", "p", "jgeo2", "properties.@T", "5")})
 	shapes = append(shapes, shape{"eval-jset-geojson", respDo([][]string{{"SET", "p", "jgeo3", "OBJECT", feat}}, "EVAL", `return tile38.call('jset','p','jgeo3','properties.' .. ARGV[1], '7')`, "0", "@T")})
+	// deleting hooks and channels of every fence form (a roaming fence has no area object)
+	shapes = append(shapes, shape{"delchan-roam", respDo([][]string{{"SETCHAN", "rc@T", "NEARBY", "p", "FENCE", "ROAM", "p", "*", "100"}}, "DELCHAN", "rc@T")})
+	shapes = append(shapes, shape{"delhook-roam", respDo([][]string{{"SETHOOK", "rh@T", "http://127.0.0.1:9/x", "NEARBY", "p", "FENCE", "ROAM", "p", "*", "100"}}, "DELHOOK", "rh@T")})
+	shapes = append(shapes, shape{"delchan-roam-json", respDo([][]string{{"OUTPUT", "json"}, {"SETCHAN", "jrc@T", "NEARBY", "p", "FENCE", "ROAM", "p", "*", "100"}}, "DELCHAN", "jrc@T")})
+	shapes = append(shapes, shape{"delhook-roam-json", respDo([][]string{{"OUTPUT", "json"}, {"SETHOOK", "jrh@T", "http://127.0.0.1:9/x", "NEARBY", "p", "FENCE", "ROAM", "p", "*", "100"}}, "DELHOOK", "jrh@T")})
+	shapes = append(shapes, shape{"pdelchan-static", respDo([][]string{{"SETCHAN", "sc@T", "WITHIN", "p", "FENCE", "BOUNDS", "0", "0", "1", "1"}}, "PDELCHAN", "sc@T*")})
 	// a multi-field FSET whose last pair changes nothing
 	shapes = append(shapes, shape{"fset-last-pair-unchanged", respDo([][]string{{"SET", "p", "f2", "FIELD", "load", "5", "POINT", "1", "2"}}, "FSET", "p", "f2", "tokf", "@T", "load", "5")})
 	shapes = append(shapes, shape{"fset-first-pair-unchanged", respDo([][]string{{"SET", "p", "f3", "FIELD", "load", "5", "POINT", "1", "2"}}, "FSET", "p", "f3", "load", "5", "tokf", "@T")})
